@@ -310,8 +310,11 @@ def run_case(spec):
             vecs[b] = damage(vecs[b], other)
         else:
             Rb, Lb = vecs[b]
+            Rall = np.hstack([np.array(v[0].tolist() if isinstance(v[0], sympy.MatrixBase) else v[0], dtype=complex) for v in vecs])
+            if how == "swap_left" and np.allclose(Rall.conj().T @ Rall, np.eye(Rall.shape[1]), atol=1e-9):
+                how = variant = "scale"  # the right vectors happen to be orthonormal: (R, R) would be a valid basis
             if how == "swap_left":
-                vecs[b] = (Rb, Rb)  # left vectors replaced by the right ones: not biorthogonal in general
+                vecs[b] = (Rb, Rb)  # left vectors replaced by the right ones: not biorthogonal
             else:
                 vecs[b] = (damage(Rb, vecs[ob][0][:, 0] if len(vecs) > 1 else None), Lb)
         q.kwargs["subspace_eigenvectors"] = tuple(vecs)
